@@ -320,9 +320,9 @@ def compare_pair(ctx, a, b, filters, plan_names, is_wt, guards=frozenset()):
                             ch = chs[0]
                             if len(chs) > 1 and (ch.path[0] == ch.path[1] or None in ch.path):
                                 p = ch.path[1] if ch.path[1] is not None else ch.path[0]
-                                # ... nor lies where a renamed / removed directory used to be (the
-                                # other recorded shape: anything below the OLD path of such a directory)
-                                old_dirs = [r[2][0] for r in full.get((False, False), ()) if r[0] == "v" and r[2][0] is not None and r[2][0] != r[2][1] and r[7][0] == "directory"]
+                                # ... nor lies where a moved / removed entry (of any kind) used to be (the
+                                # other recorded shape: anything at or below the OLD path of such an entry)
+                                old_dirs = [r[2][0] for r in full.get((False, False), ()) if r[0] == "v" and r[2][0] is not None and r[2][0] != r[2][1]]
                                 if any(T.inside(o, p) for o in old_dirs):
                                     continue
                                 if any(T.inside(s, p) for s in inner):
@@ -331,7 +331,7 @@ def compare_pair(ctx, a, b, filters, plan_names, is_wt, guards=frozenset()):
                     got, ref = equalise(sim, got_all, ref_all, spec, inc, unv, impl, guards, full, a)
                     if got != ref:
                         # which lifted guard (reported defect) explains the difference?
-                        lifted = sorted(set(T.GUARDS) - set(guards))
+                        lifted = sorted(T.active_guards() - set(guards))
                         for g in lifted + ["+".join(lifted)]:
                             x, y = equalise(sim, got_all, ref_all, spec, inc, unv, impl, set(guards) | set(g.split("+")), full, a)
                             if lifted and x == y:
@@ -463,7 +463,7 @@ def compare_step(sim, tree, model, i, op):
         sim.notes.setdefault("territory", "bzr_dir_replaced")
     filters = [f for f in (model.usable_filter(f) for f in plan.get("filters", [])) if f]
     strict = model.copy()
-    strict.guards = set(T.GUARDS)
+    strict.guards = T.active_guards()
     risky = {tuple(f): "bzr_enotdir_filter" for f in filters if strict.usable_filter(f) != f}
     with tree.lock_read():
         basis = tree.basis_tree()
@@ -544,5 +544,5 @@ def execute(sim, plan):
     st = sim.notes.get("c10", {"evals": 0, "differed": False})
     sim.notes["evaluations"] = max(1, st["evals"])
     sim.nontrivial = bool(ok and st["differed"])
-    for k in ("c10", "prop", "territory"):
+    for k in ("c10", "prop", "territory", "territory_state"):
         sim.notes.pop(k, None)
